@@ -1704,7 +1704,7 @@ func (p *Parser) parseBooleanExpression(single bool, negated bool, scriptName st
 		if p.curToken.Type != token.RPAREN {
 			return nil, nil, NewRangeParseError(openToken, p.curToken, "missing closing ')' for nested boolean expression")
 		}
-		if p.peekTokenIs(token.AND) || p.peekTokenIs(token.OR) {
+		if !single && (p.peekTokenIs(token.AND) || p.peekTokenIs(token.OR)) {
 			p.nextToken()
 			rightExpression, rightImpData, err := p.parseRightSideExpression(nestedExpression, single, negated, scriptName)
 			if err != nil {
@@ -1781,6 +1781,16 @@ func (p *Parser) parseRightSideExpression(left ast.BooleanExpression, single boo
 		}
 		if p.curToken.Literal == token.RPAREN {
 			return grouped, impData, nil
+		}
+		if p.curToken.Type == token.AND {
+			// '&&' binds tighter than '||', so keep extending the AND chain before
+			// anything that follows is combined with it.
+			chained, chainedImpData, err := p.parseRightSideExpression(grouped, single, negated, scriptName)
+			if err != nil {
+				return nil, nil, err
+			}
+			impData.add(chainedImpData)
+			return chained, impData, nil
 		}
 		operator = p.curToken.Type
 		if negated {
